@@ -4,8 +4,10 @@ import (
 	"encoding/base64"
 	"encoding/json"
 	"fmt"
+	"io"
 	"os"
 	"strings"
+	"time"
 
 	"github.com/emersion/go-imap/v2/imapserver"
 )
@@ -21,6 +23,9 @@ type srvCfg struct {
 	// the backend session implements SessionSASL (not a parameter of the model: the model's
 	// AUTHENTICATE is the same with either backend)
 	SASL bool `json:"sasl"`
+	// the listener is a Unix domain socket (not a parameter of the model either: only TLS makes
+	// a connection secure, a local socket is plaintext like TCP)
+	Unix bool `json:"unix,omitempty"`
 }
 
 func (c srvCfg) coq() string {
@@ -99,12 +104,15 @@ func runC05(h *H) {
 		}
 		cfgs = append(cfgs, c)
 	}
+	for m := 0; m < 4; m++ {
+		cfgs = append(cfgs, srvCfg{TLSConfig: m&1 != 0, SASL: m&2 != 0, Unix: true})
+	}
 	servers := map[srvCfg]*testServer{}
 	getServer := func(c srvCfg) *testServer {
 		if ts := servers[c]; ts != nil {
 			return ts
 		}
-		o := srvOpts{InsecureAuth: c.Insecure, PreAuth: c.PreAuth, Unauth: c.Unauth, SASL: c.SASL, TLSListener: c.TLS,
+		o := srvOpts{InsecureAuth: c.Insecure, PreAuth: c.PreAuth, Unauth: c.Unauth, SASL: c.SASL, TLSListener: c.TLS, Unix: c.Unix,
 			Configure: func(s *stubSession) { s.recordPoll = true }}
 		if c.TLSConfig {
 			o.TLSConfig = testTLSConfig
@@ -327,6 +335,48 @@ func runC05(h *H) {
 		rec(c, nil)
 	}
 	h.Note("exhaustive: all %d^%d command sequences (all backend calls succeeding) in %d configurations", len(c05Alphabet), depth, h.Pick(2, 4))
+	// 2b. a command sent in the same plaintext segment as STARTTLS is not a command of the
+	// protected session: the backend must never be reached by it, whatever the handshake does
+	for _, c := range cfgs {
+		if c.TLS || !c.TLSConfig || c.PreAuth || c.Unix {
+			continue
+		}
+		for _, injected := range []string{"B LOGIN mallory injected", "B AUTHENTICATE PLAIN AG1hbGxvcnkAaW5qZWN0ZWQ=", "B NOOP"} {
+			ts := getServer(c)
+			rc := ts.dial()
+			rc.greeting()
+			stub := ts.lastSession()
+			desc := map[string]interface{}{"config": c, "segment": "A STARTTLS\r\n" + injected + "\r\n"}
+			h.InFlight(desc)
+			io.WriteString(rc.c, "A STARTTLS\r\n"+injected+"\r\n")
+			l, _ := rc.readLine(5 * time.Second)
+			var after []string
+			if strings.HasPrefix(l, "A OK") {
+				if err := rc.upgradeTLS(); err == nil {
+					for {
+						l2, err := rc.readLine(500 * time.Millisecond)
+						if err != nil {
+							break
+						}
+						after = append(after, l2)
+					}
+				}
+			}
+			for _, k := range stub.Calls() {
+				if k.Name == "Login" || k.Name == "Authenticate" {
+					h.Fail("plaintext-command-after-starttls:"+k.Name, fmt.Sprintf("%q sent in plaintext together with STARTTLS reached the backend as %s %v (responses inside TLS: %q)", injected, k.Name, k.Args, after), desc)
+				}
+			}
+			for _, l2 := range after {
+				if strings.HasPrefix(l2, "B ") {
+					h.Fail("plaintext-command-after-starttls:answered", fmt.Sprintf("%q sent in plaintext together with STARTTLS was answered inside TLS: %q", injected, l2), desc)
+				}
+			}
+			rc.Close()
+			h.Eval(fmt.Sprintf("starttls-pipelined|%v|%s", c, injected))
+			h.Hist("starttls_pipelined_plaintext")
+		}
+	}
 	// 3. random longer sequences with random outcomes
 	for i := 0; i < h.Pick(300, 5000); i++ {
 		c := cfgs[h.Rng.Intn(len(cfgs))]
